@@ -45,7 +45,7 @@ PROPS = {
              "speeds log-uniform in [0.1,50], exactly 1, fixed ladder, and speeds making F1/s a rounding tie; each case runs speed 1, s and s2. "
              "class = (branch taken at speed s: speed1/floor/exact/up/down, size bucket); non-trivial = speed != 1 and total differs from the speed-1 total",
         theorem_clauses=["speed 1: max(1, round(mean)) per state", "create never panics, greedy loop terminates within |target-sum| steps",
-                         "length and >=1 per state", "total = max(round(F1/s), n)", "total non-increasing in s"],
+                         "length and >=1 per state", "total = max(round(F1/s), n)", "total non-increasing in s", "pipeline level: at speed s synthesis returns frame_period x max(round(F1/s), #states) samples"],
         test_clauses=["f64 rounding of F1/s and of the rho-adjusted means (whole vectors compared exactly, pins the greedy choice)"],
         assumptions=["variances non-zero (the property's range)"],
     ),
